@@ -54,7 +54,8 @@ PROBES = ["probes/write_seen_through_alias", "probes/relink_dropped_handle", "pr
           "probes/component_view_write", "probes/out_argument", "probes/write_collection_member_pair",
           "probes/ghost_ctor_aliases_user_array", "probes/operator_on_view", "probes/upcast_on_relink",
           "probes/collection_with_identical_fields", "probes/storage_reread", "probes/ghost_cell_write_via_full_array",
-          "probes/inplace_operand_aliases_target"]
+          "probes/inplace_operand_aliases_target", "probes/copy_via_deepcopy", "probes/copy_via_pickle",
+          "probes/single_precision_plan"]
 COMPONENTS = {
     "real": ["pde.fields.base.FieldBase", "pde.fields.datafield_base.DataFieldBase", "ScalarField", "VectorField",
              "Tensor2Field", "FieldCollection", "pde.storage.memory.MemoryStorage (round trip of one frame)",
@@ -83,7 +84,8 @@ ASSUMPTIONS = [
     "(old collection, old data arrays, old component views, siblings) is dropped from the model, not asserted on",
     "only documented-legal operand combinations are generated (same grid, compatible classes, castable dtypes, scalar "
     "exponents, non-empty slices); any exception raised by py-pde in a generated operation is a violation",
-    "<= 10 live handles, grids with 2-4 cells per axis, float64 / complex128 only, labels of collections not exercised",
+    "<= 10 live handles, grids with 2-4 cells per axis, float64 / complex128 (8% of the plans: float32 / complex64 with the operations that involve no arithmetic - "
+    "py-pde's rules for promoting single precision are not documented), labels of collections not exercised",
 ]
 
 _CAP = 10
@@ -105,6 +107,9 @@ _OP_WEIGHTS = {
     "tconvert": 2, "ufunc": 2, "smooth": 2, "toscalar": 2, "dot": 2,
 }
 _CORE_KINDS = ("new", "write")
+# single-precision plans (float32 / complex64 fields): only operations without arithmetic, whose outcome does not depend on
+# py-pde's (undocumented) rules for promoting single to double precision - what is decided there is aliasing, not values
+_SINGLE_KINDS = ("new", "data", "full", "comp", "copy", "write", "setitem", "setdata", "drop", "ghost")
 
 
 def prepare():
@@ -166,7 +171,7 @@ def _gen_op(rng, kind, pc):
     if kind == "comp":
         return {"op": "comp", "h": s(), "i": rng.randrange(6), "j": rng.randrange(6), "name": rng.random() < 0.4}
     if kind == "copy":
-        return {"op": "copy", "h": s(), "c": rng.random() < 0.5 * pc}
+        return {"op": "copy", "h": s(), "c": rng.random() < 0.5 * pc, "via": rng.choice(["copy", "copy", "copy", "deepcopy", "pickle"])}
     if kind == "slice":
         return {"op": "slice", "h": s(), "a": rng.randrange(8), "b": rng.randrange(8)}
     if kind == "append":
@@ -214,6 +219,9 @@ def gen_plan(rng, tier, idx):
     grid = _gen_grid(rng)
     n_ops = rng.randint(6, 40 if tier == "quick" else 60)
     kinds = [k for k in _OP_WEIGHTS if k in _CORE_KINDS or rng.random() < 0.78]
+    single = rng.random() < 0.08
+    if single:
+        kinds = [k for k in kinds if k in _SINGLE_KINDS]
     weights = [_OP_WEIGHTS[k] * rng.choice([0.5, 1.0, 1.0, 2.0]) for k in kinds]
     ops = []
     n_start = rng.choice([1, 2, 2, 3])
@@ -221,12 +229,15 @@ def gen_plan(rng, tier, idx):
     for i in range(n_ops):
         if i < n_start:
             kind = "new"
-        elif i == n_start and early_fc:
+        elif i == n_start and early_fc and not single:
             kind = "fc"
         else:
             kind = rng.choices(kinds, weights)[0]
         ops.append(_gen_op(rng, kind, pc))
-    return {"property": PROPERTY, "grid": grid, "cap": _CAP, "ops": ops}
+    plan = {"property": PROPERTY, "grid": grid, "cap": _CAP, "ops": ops}
+    if single:
+        plan["single"] = True
+    return plan
 
 
 def shrink_lists(plan):
@@ -354,6 +365,8 @@ class _Sim:
 
         self.np, self.pde = np, pde
         self.plan = plan
+        self.single = bool(plan.get("single"))
+        self.f_dt, self.c_dt = (np.dtype(np.float32), np.dtype(np.complex64)) if self.single else (np.dtype(np.float64), np.dtype(np.complex128))
         self.grids = [_make_grid(plan["grid"]), _make_grid(plan["grid"])]
         g = self.grids[0]
         self.dim, self.nax = int(g.dim), int(g.num_axes)
@@ -419,6 +432,8 @@ class _Sim:
         self.nextval += n
         if cplx:
             a = a + 1j * (a + 0.5)
+        if self.single:
+            a = a.astype(self.c_dt if cplx else self.f_dt)
         return a
 
     def is_c(self, buf):
@@ -647,11 +662,11 @@ class _Sim:
         grid = self.grids[o["g"] % 2]
         ds = self.dshape_of(kind)
         cplx = bool(o["c"])
-        dtype = (np.complex128 if cplx else np.float64) if o["dt"] else None
+        dtype = (self.c_dt if cplx else self.f_dt) if (o["dt"] or self.single) else None
         label = f"f{self.nhid}"
         if o["how"] == "ghost":
             arr = self.fresh(ds + self.fshape, cplx and not o["dt"])  # with dt: real data, cast by the dtype argument
-            pred = arr.astype(np.complex128) if cplx else arr
+            pred = arr.astype(self.c_dt) if cplx else arr
             obj = self.call(lambda: cls(grid, data=arr, label=label, dtype=dtype, with_ghost_cells=True))
             bid = self.new_buffer(obj, ds, None, exact=True, pred_full=pred.copy())
             h = self.add_handle(_H(kind, obj, bid, 0, self.ncomp_of(kind), ds))
@@ -663,7 +678,7 @@ class _Sim:
                 return f"new {h.desc()} ghost user-array-aliased"
             return f"new {h.desc()} ghost user-array-{'overlaps' if np.shares_memory(full, arr) else 'copied'}"
         arr = self.fresh(ds + self.gshape, cplx and not o["dt"])
-        pred = arr.astype(np.complex128) if cplx else arr
+        pred = arr.astype(self.c_dt) if cplx else arr
         obj = self.call(lambda: cls(grid, data=arr, label=label, dtype=dtype))
         bid = self.new_buffer(obj, ds, pred, exact=True)
         h = self.add_handle(_H(kind, obj, bid, 0, self.ncomp_of(kind), ds))
@@ -865,14 +880,26 @@ class _Sim:
         h = self.pick(o["h"], lambda h: h.kind != "A")
         if h is None:
             return None
-        to_c = bool(o["c"])
-        kw = {"dtype": np.complex128} if to_c else {}
-        r = self.call(lambda: h.obj.copy(**kw))
+        via = o.get("via", "copy")
+        to_c = bool(o["c"]) and via == "copy"
+        kw = {"dtype": self.c_dt} if to_c else {}
+        if via == "deepcopy":
+            import copy as _copy
+
+            r = self.call(lambda: _copy.deepcopy(h.obj))
+            self.probe("copy_via_deepcopy")
+        elif via == "pickle":
+            import pickle as _pickle
+
+            r = self.call(lambda: _pickle.loads(_pickle.dumps(h.obj)))
+            self.probe("copy_via_pickle")
+        else:
+            r = self.call(lambda: h.obj.copy(**kw))
         pred = self.mvalid(h).copy()
         if to_c:
-            pred = pred.astype(np.complex128)
+            pred = pred.astype(self.c_dt)
         n = self._register_result(r, h.kind, self._members0(h), pred, exact=True)
-        return f"copy {n.desc()} of {h.desc()}"
+        return f"copy({via}) {n.desc()} of {h.desc()}"
 
     def op_slice(self, o):
         h = self.pick(o["h"], lambda h: h.kind == "C")
@@ -1360,6 +1387,8 @@ class _Sim:
     # ---------------------------------------------------------------- main loop
     def run(self):
         ops = self.plan["ops"]
+        if self.single:
+            self.probe("single_precision_plan")
         for k, o in enumerate(ops):
             self.step = k
             self.opname = o["op"]
